@@ -322,6 +322,13 @@ def run_system(ctx, pid=None):
     ]
 
 
+SYSTEM_LEVEL_TEXT = (" Thorough tier additionally: the composed system model spec/Driver.tla (Hosts.tla instanced + pool "
+                     "connections + requests + session keyspace) is explored by TLC in simulation mode with its invariants "
+                     "on, and 3000 whole-driver runs over three simulated nodes (seeded random scheduler) are recorded and "
+                     "validated event by event against spec/Trace_Driver.tla; rejections attributed to this property are "
+                     "reported (trace validation, not exhaustive).")
+
+
 def system_tier(ctx, pid):
     """The thorough tier of the checks whose property the system model speaks about runs the whole-driver machinery too
     and reports what is attributed to that property."""
